@@ -1,5 +1,5 @@
 """Property -> rule families.  Each entry is a list of callables taking the Run context."""
-import rf_alloc, rf_state, rf_tables, rf_sig, rf_union, rf_flow, rf_vocab, rf_mir2c, rf_code, rf_bounds, rf_fold, rf_proto, rf_dispatch, rf_keys, rf_abi, rf_x86
+import rf_alloc, rf_state, rf_tables, rf_sig, rf_union, rf_flow, rf_vocab, rf_mir2c, rf_code, rf_bounds, rf_fold, rf_proto, rf_dispatch, rf_keys, rf_abi, rf_x86, rf_inline
 from lib import facts as F
 
 
@@ -183,6 +183,8 @@ def c04_rf18(run):
     rf_dispatch.rf7g(run)
     run.min_instances('RF7g', 60)
     rf_dispatch.rf7b(run, units=('mir',))
+    rf_inline.rf28(run)
+    run.min_instances('RF28', 3)
 
 
 def c16_rf16(run):
